@@ -355,12 +355,12 @@ theorem constraintLoop_bal (ts) : Bal (constraintLoop ts) := by
     simp only [Bal, he] at ih
     unfold constraintLoop; split <;> simp [Bal, ih]
 
+theorem versionLoop_bal (ts) : Bal (versionLoop ts) := by
+  fun_induction versionLoop ts <;> simp_all [Bal] <;> omega
+
 theorem versionTok_bal (ts) : Bal (versionTok ts) := by
   unfold versionTok; split
-  · refine bal_andThen (bump1_bal _) fun x => ?_
-    split
-    · exact bal_andThen (bump1_bal _) (expect_bal _ _)
-    · exact bal_nil x
+  · exact bal_andThen (bump1_bal _) versionLoop_bal
   · exact errorTok_bal _ ts
 
 theorem versionPart_bal (ts) : Bal (versionPart ts) := by
